@@ -1625,6 +1625,7 @@ bus_driver_handle_list_queued_owners (DBusConnection *connection,
     goto oom;
 
   dbus_message_unref (reply);
+  _dbus_list_clear (&base_names);
 
   return TRUE;
 
